@@ -8,7 +8,7 @@ from ..gen_lean import Def
 from ..runner import Corr, Failure
 from .c03 import KINDS, _mk, _bern_exact_c, _close
 
-LEAN_MODULES = ['SvgVerif.Props.C09', 'SvgVerif.Props.C09Length']
+LEAN_MODULES = ['SvgVerif.Props.C09', 'SvgVerif.Props.C09Length', 'SvgVerif.Props.C04RoundTrip']
 
 
 def gen_defs(spt, salt=0):
@@ -52,10 +52,11 @@ def gen_defs(spt, salt=0):
     return defs
 
 
-GEN = {'C09': gen_defs}
+from . import c04 as _c04
+GEN = {'C09': gen_defs, 'C04': _c04.gen_defs}     # C04RoundTrip (arcs) uses C04's traced Arc.point
 ASSUMPTIONS = [
     'Path.cropped / Path.reversed: hand model tied by exact correspondence on stub segments; isclose snaps are modelled with their numeric thresholds',
-    'Arc.reversed/cropped are covered by the sampler and by C04, not by a ring identity',
+    'Arc.reversed/cropped: the point maps are theorems of Props/C04RoundTrip.lean (reversed_point, cropped_point, built_*) about the constructor calls those methods make; that the methods pass exactly those arguments is checked by the sampler on real arcs',
 ]
 
 
@@ -208,6 +209,18 @@ def sample(ctx, budget=1.0, hint=None, broken=None):
                 fail('%s.reversed' % kind, 'reversed().point(u) != point(1-u)', {'seg': desc, 'u': u}, repr(rv.point(u)), repr(seg.point(1 - u)),
                      'svgpathtools.%s.reversed().point(%r)' % (desc, u))
                 break
+        if kind == 'arc':
+            # the constructor calls Arc.reversed / Arc.cropped make are exactly the ones Props/C04RoundTrip.lean is about
+            ta, tb = sorted([r.uniform(0, 0.6), r.uniform(0.4, 1)])
+            if ta < tb:
+                cr_ = seg.cropped(ta, tb)
+                got_ = (rv.start, rv.end, rv.radius, rv.rotation, bool(rv.large_arc), bool(rv.sweep),
+                        cr_.start, cr_.end, cr_.rotation, bool(cr_.large_arc), bool(cr_.sweep))
+                want_ = (seg.end, seg.start, seg.radius, seg.rotation, bool(seg.large_arc), not seg.sweep,
+                         seg.point(ta), seg.point(tb), seg.rotation, abs(seg.delta * (tb - ta)) > 180, bool(seg.sweep))
+                if got_ != want_ or abs(cr_.radius - seg.radius) > 1e-9 * abs(seg.radius):
+                    fail('arc.reversed/cropped constructor data', 'Arc.reversed() / Arc.cropped() do not hand the expected end points, radii, rotation and flags to Arc()',
+                         {'seg': desc, 't0': ta, 't1': tb}, repr(got_), repr(want_))
         t = r.choice([0.5, 0.25, 0.125, 0.875, r.uniform(0.02, 0.98)])
         a, b = seg.split(t)
         if abs(a.end - seg.point(t)) > tol or abs(b.start - seg.point(t)) > tol or abs(a.start - seg.point(0)) > tol or abs(b.end - seg.point(1)) > tol:
